@@ -40,7 +40,10 @@ def snapshot(m, with_xyzr: bool = False) -> dict:
         "recordings": _table(m.recordings),
         "externals": {k: _arr(v) for k, v in sorted(m.externals.items())},
         "external_inds": {k: _arr(v) for k, v in sorted(m.external_inds.items())},
-        "groups": {k: _arr(v) for k, v in sorted(m.groups.items())},
+        # a group is a SET of compartments: every consumer (`module.<group>` views, set_ncomp re-indexing) filters rows by membership,
+        # so the order in which the indices are stored is unobservable (a group first registered from a non-ascending selection
+        # keeps that order until set_ncomp or a second add_to_group sorts it); duplicates would be observable and are kept
+        "groups": {k: _arr(np.sort(np.asarray(v))) for k, v in sorted(m.groups.items())},
         "trainable_params": [{k: _arr(v) for k, v in p.items()} for p in m.trainable_params],
         "indices_set_by_trainables": [_arr(i) for i in m.indices_set_by_trainables],
         "channels": [c._name for c in m.channels],
